@@ -47,12 +47,13 @@ class XMLResourceLoader:
     _xpath_root: Union[None, ElementNode, DocumentNode]
     _nsmaps: dict[ElementType, dict[str, str]]
     _xmlns: dict[ElementType, list[tuple[str, str]]]
+    _pruned: dict[ElementType, dict[str, int]]
     _parent_map: Optional[ParentMapType]
 
     root: ElementType
     """The XML tree root Element."""
 
-    __slots__ = ('root', '_nsmaps', '_xmlns', '_lazy', '_thin_lazy',
+    __slots__ = ('root', '_nsmaps', '_xmlns', '_pruned', '_lazy', '_thin_lazy',
                  '_iterparse', '_xpath_root', '_parent_map', '__dict__')
 
     def __init__(self, source: Union[IOType, EtreeType],
@@ -65,6 +66,7 @@ class XMLResourceLoader:
         self.iterparse = iterparse
         self._nsmaps = {}
         self._xmlns = {}
+        self._pruned = {}
         self._xpath_root = None
         self._parent_map = None
         self._lazy_lock = LazyLockType()
@@ -120,6 +122,7 @@ class XMLResourceLoader:
 
         obj._nsmaps = self._nsmaps.copy()
         obj._xmlns = self._xmlns.copy()
+        obj._pruned = self._pruned.copy()
         obj._xpath_root = None
         obj._parent_map = None
         obj._lazy_lock = LazyLockType()
@@ -129,6 +132,14 @@ class XMLResourceLoader:
     def namespace(self) -> str:
         """The namespace of the XML resource."""
         return get_namespace(self.root.tag)
+
+    @property
+    def pruned(self) -> dict[ElementType, dict[str, int]]:
+        """
+        For thin lazy resources: for each element of the partially loaded tree
+        the number of its children already deleted, counted by tag.
+        """
+        return self._pruned
 
     @property
     def parent_map(self) -> dict[ElementType, Optional[ElementType]]:
@@ -229,6 +240,7 @@ class XMLResourceLoader:
 
         self._nsmaps.clear()
         self._xmlns.clear()
+        self._pruned.clear()
 
         acquired = self._lazy_lock.acquire(blocking=False)
         if not acquired:
@@ -345,8 +357,14 @@ class XMLResourceLoader:
                         if e in self._xmlns:
                             del self._xmlns[e]
                         del self._nsmaps[e]
+                        self._pruned.pop(e, None)
                     else:
                         if k:
+                            # keep the count of the deleted siblings for the
+                            # positions of the paths (see etree_getpath)
+                            counts = self._pruned.setdefault(parent, {})
+                            for e in parent[:k]:
+                                counts[e.tag] = counts.get(e.tag, 0) + 1
                             del parent[:k]
                         break
 
